@@ -448,6 +448,13 @@ def res_of(code):
 
 def holds(case, out):
     """C19 on one real outcome.  Returns None or a description of the violation (strict scenarios only)."""
+    try:
+        return _holds(case, out)
+    except (ValueError, IndexError, KeyError) as e:
+        return "outcome line cannot be interpreted (corrupted values?): %s" % e
+
+
+def _holds(case, out):
     acts = case.split()
     kind = acts[0][1]
     acts = acts[1:]
@@ -478,13 +485,14 @@ def holds(case, out):
             done[e] = True
     rvec = []                          # last known contents of the reader's vector (R: tokens)
     rfk = None                         # kind of the reader-side future in flight
+    optaken = []                       # items the host stored for the reader-side future in flight
     for gi, g in enumerate(groups):
         act = acts[gi] if gi < len(acts) else "(wrapup)"
         h = act.split("=")[0]
         if h[0] == "r" and h[1:].isdigit():
-            rfk = "op"
-        elif h in ("nx", "col"):
-            rfk = h
+            rfk = "op"; optaken = []
+        elif h in ("nx", "col", "ad"):
+            rfk = h; optaken = []
         if any(t.startswith(("R:", "nx:", "col:")) for t in g):
             rfk = None
         if h in ("ew", "er"):
@@ -496,7 +504,7 @@ def holds(case, out):
             if key == "tw":
                 ids = _ids(val); sent += ids; pend["w"] += len(ids)
             elif key == "tr":
-                ids = _ids(val); taken += ids; pend["r"] += len(ids)
+                ids = _ids(val); taken += ids; pend["r"] += len(ids); optaken += ids
             elif key in ("sw", "sr"):
                 ln, code = val.split("="); code = int(code); e = key[1]
                 moved[e] = pend[e]; pend[e] = 0
@@ -529,20 +537,31 @@ def holds(case, out):
                     v = _ids(rest)
                     if v[:len(rvec)] != rvec:
                         return "reader vector lost its earlier contents: %s -> %s" % (rvec, v)
+                    if len(v) - len(rvec) != k or v[len(rvec):] != optaken[-k or len(optaken):]:
+                        return "read reported %d new items %s but its vector went %s -> %s (action %d %s)" % (k, optaken[-k or len(optaken):], rvec, v, gi, act)
                     shown += v[len(rvec):]
-                    rvec = v
+                    rvec = v; optaken = []
             elif key == "got":
                 if _ids(val) != rvec:
                     return "vector handed to the caller %s differs from the last read result %s" % (val, rvec)
                 visible += rvec; rvec = []
             elif key in ("nx", "sn", "one"):
                 e = "w" if key == "one" else "r"
+                if e == "r" and not (key == "sn" and not optaken and val == "-"):
+                    exp = str(optaken[-1]) if optaken else "-"
+                    if val != exp:
+                        return "%s returned %s but the host stored %s for it (action %d %s)" % (key, val, optaken, gi, act)
+                if e == "r":
+                    optaken = []
                 last[e] = None; moved[e] = 0
                 if val != "-":
                     (returned if key == "one" else visible).append(int(val))
                     if key != "one":
                         shown.append(int(val))
             elif key == "col":
+                if _ids(val) != optaken:
+                    return "collect returned %s but the host stored %s for it" % (val, optaken)
+                optaken = []
                 visible += _ids(val); shown += _ids(val); last["r"] = None; moved["r"] = 0
             elif key in ("ret", "all"):
                 returned += _ids(val)
@@ -577,7 +596,7 @@ def holds(case, out):
             if h == "xr" and rfk == "op":
                 rvec = []          # the vector was inside the dropped read
             if h == "xr":
-                rfk = None
+                rfk = None; optaken = []
     # (1) exactly once, in order, on the wire
     if len(set(sent)) != len(sent) or any(x >= handed for x in sent):
         return "host saw an item twice / an item never handed over: sent=%s" % sent
